@@ -69,7 +69,7 @@ def run(pid):
         for nth in ((1, 2, 3) if thorough else (1, 2)):
             scens.append({"kind": "park", "point": p, "nth": nth, "seed": vlib.seed() * 100 + len(scens), "pl": 600, "wl": "reloc"})
     scens.append({"kind": "park", "point": "", "nth": 1, "seed": vlib.seed()})
-    for f in ("idxsize", "prisize", "idxheader", "priheader", "ptype"):
+    for f in ("idxsize", "prisize", "idxheader", "priheader", "ptype", "bitsandsize", "bitsandtrunc"):
         scens.append({"kind": "failopen", "fail": f, "seed": vlib.seed() + 3})
     scens.append({"kind": "cycles", "cycles": 60 if thorough else 25, "seed": vlib.seed()})
     vlib.log("C17: %d scenarios (%d yield points)" % (len(scens), len(POINTS)))
